@@ -80,7 +80,8 @@ impl Vm {
     ) -> ParseResult<Box<ParserState<'a, &'a str>>> {
         if let Some(ref listener) = self.listener {
             if listener(rule.to_owned(), state.position()) {
-                return Err(ParserState::new(state.position().line_of()));
+                // Fail the parse with the state it has; a fresh state would be a different parse.
+                return Err(state);
             }
         }
         match rule {
